@@ -43,6 +43,7 @@ class Harness:
     kind: str = 'vc'                # 'vc' | 'bounded' | 'lemma'
     heavy: bool = False             # only in thorough tier
     clause_props: dict = dataclasses.field(default_factory=dict)   # clause -> the properties it counts for (default: all of props)
+    prop_clauses: dict = dataclasses.field(default_factory=dict)   # property -> the ONLY clauses that count for it (default: all clauses)
     native_replays: dict = dataclasses.field(default_factory=dict)   # clause -> driver script forcing the schedule on the real code
     replayable: bool = True
 
